@@ -290,7 +290,9 @@ class Runner:
         elif job.backend == 'kissat': cmd += ['--external-sat-solver', 'kissat']
         if job.mode == 'assert' and job.unwind is not None and '--unwind' not in job.cbmc_flags:
             cmd += ['--unwind', str(job.unwind), '--unwinding-assertions']
-        for us in (job.unwindset if job.mode == 'assert' else []): cmd += ['--unwindset', us]
+        for us in (job.unwindset if job.mode == 'assert' else []):
+            for mac, val in getattr(job, '_resolved', {}).items(): us = us.replace('{%s}' % mac, val)
+            cmd += ['--unwindset', us]
         cmd += job.cbmc_flags
         return cmd
 
